@@ -58,7 +58,7 @@ ATTRS = {"sm": M.SM_SIM_ATTRS, "ssc": M.SSC_SIM_ATTRS, "sscchart": M.SSC_CHART_A
 # a key that is an alias elsewhere but must be an ordinary key here (known-properties.rst: FREEZES is SM-only)
 DECOYS = {("ssc", "stops"): "FREEZES", ("sscchart", "stops"): "FREEZES"}
 RESERVED = {"sm": {"NOTES"}, "ssc": {"NOTEDATA"}, "sscchart": {"NOTEDATA"}, "smchart": set()}
-VIAS = {"sm": ("setitem", "parse"), "ssc": ("setitem", "parse"), "sscchart": ("setitem", "parse"),
+VIAS = {"sm": ("setitem", "parse"), "ssc": ("setitem", "parse"), "sscchart": ("setitem", "parse", "from_str"),
         "smchart": ("from_msd", "from_str", "blank", "parse")}
 SM_BASE = ["dance-single", "desc", "Hard", "9", "0.1,0.2", "0000"]
 _PLAIN = re.compile(r"[A-Za-z0-9 .,=_\n-]*\Z")
@@ -106,6 +106,13 @@ def build(kind, items, via):
                 setattr(c, attr, v)
             return c
         return SMSimfile(string=_text(kind, items)).charts[0]
+    if via == "from_str" and kind == "sscchart":
+        # documented: parsing ends at the NOTES (or NOTES2) property - whatever follows it is assigned by key afterwards
+        cut = next((i + 1 for i, (k, _) in enumerate(items) if k in ("NOTES", "NOTES2")), len(items))
+        c = SSCChart.from_str(_text(kind, items[:cut]))
+        for k, v in items[cut:]:
+            c[k] = v
+        return c
     if via == "parse":
         if kind == "sm":
             return SMSimfile(string=_text(kind, items))
@@ -319,6 +326,12 @@ class Interp:
         need(items_of(o) == items, f"{w}: reading changed the mapping to {items_of(o)}")
         twin = build(kind, items, other_via(kind, self.via))
         need(o == twin and twin == o and not (o != twin), f"{w}: not equal to an object rebuilt from the same mapping {items}")
+        if kind != "smchart" and len(items) >= 2:
+            # the same keys in rotated order holding the same sequence of values: another mapping unless all values agree
+            rot = [[items[(i + 1) % len(items)][0], items[i][1]] for i in range(len(items))]
+            if dict(map(tuple, rot)) != dict(map(tuple, items)):
+                shifted = build(kind, rot, other_via(kind, self.via))
+                need(o != shifted and not (o == shifted) and not (shifted == o), f"{w}: compares equal to an object holding {rot} while it holds {items}")
         if self.prev is not None and dict(map(tuple, self.prev)) != dict(map(tuple, items)):
             old = build(kind, self.prev, other_via(kind, self.via))
             need(o != old and not (o == old), f"{w}: compares equal to an object holding {self.prev} while it holds {items}")
@@ -580,7 +593,7 @@ def s_start(kind):
     base = st.one_of(
         st.just({"via": "setitem", "items": []}),
         st.just({"via": "blank"}),
-        st.tuples(st.sampled_from(["setitem", "parse"]), some).map(lambda t: {"via": t[0], "items": t[1]}),
+        st.tuples(st.sampled_from([v for v in VIAS[kind] if v != "blank"]), some).map(lambda t: {"via": t[0], "items": t[1]}),
     )
     # half of the histories leave the attributes unread between operations (see Interp.invariant)
     return st.tuples(base, st.booleans()).map(lambda t: dict(t[0], lazy=t[1]))
